@@ -91,6 +91,7 @@ def run(ctx):
     sorted_rule(ctx, syn)
     row_rule(ctx, syn)
     emptyrow_rule(ctx, syn)
+    triple_rule(ctx, syn)
     compress_rule(ctx, syn)
     expand_rule(ctx, syn)
     guard_rule(ctx, syn)
@@ -146,6 +147,16 @@ def run(ctx):
 
     switches = []
     visit(ins.body, [])
+    # the annotation is indexed under what its *own* target names: the selector walk must not follow annotation selectors
+    # into the targets of the annotations it points at (preremove un-indexes through the non-recursive view)
+    walks = [c_ for c_ in walk(ins.body) if c_.get("k") == "mcall" and c_["method"] == "iter" and len(c_["args"]) == 2 and unparse(strip(c_["recv"])).endswith(".target()")]
+    for c_ in walks:
+        flag = unparse(strip(c_["args"][1]))
+        r_new.hit("target-walk", sample={"walk": unparse(c_)[:60], "recurse_annotation": flag})
+        if flag != "false":
+            ctx.report(r_new, "target-walk:recursive", "inserted() walks the new annotation's target with recurse_annotation = %s: the annotation is also indexed under everything the annotations it targets refer to (text, resources, annotations), so reverse look-ups return it for items its own target does not name, and removal (which un-indexes the non-recursive view) leaves those entries behind" % flag, ins.file, c_.get("l"))
+    if not walks:
+        ctx.anchor_missing(r_new, "annotation.target().iter(self, <recurse>) in inserted()")
     # a local switch that routes the annotation to a later block which fills several indices must not hang on one index's flag
     for name, guards, node in switches:
         gated = [x for x in walk(ins.body) if x.get("k") == "if" and unparse(strip(x["cond"])) == name]
@@ -1045,6 +1056,167 @@ def emptyrow_rule(ctx, syn, rid="C01.EMPTYROW"):
                 ctx.report(r, "empty-row" if want is None else "row", "RelationMap::get(%d) on the rows [[], [5], [], [2, 9]] answers %r, expected %r: an item without relations is told apart from one with relations by `get(x).is_none()` (a root-store resource with a lower handle than a sub-store's resource is otherwise not written by the JSON writer of the root store, and the store cannot be loaded back)" % (x, got, want), fn.file, fn.line)
     except (Unknown, Panic) as e:
         ctx.report(r, "unevaluated", "RelationMap::get could not be evaluated (%s)" % e, fn.file, fn.line)
+
+
+class TList(list):
+    """a vector that knows how to make its default element (for resize_with(n, Default::default))"""
+    def __init__(self, mk):
+        super().__init__()
+        self.mk = mk
+
+
+def triple_rule(ctx, syn, rid="C01.TRIPLE"):
+    """TripleRelationMap (set -> data/key -> annotations): insert / get / remove / remove_second evaluated from their
+    syntax trees, the inner RelationMap through its own extracted methods: each operation touches exactly the row it names"""
+    from formula import Evaluator, Unknown, Panic, StructVal, some, is_some
+    r = ctx.rule(rid, "TripleRelationMap::insert / get / remove / remove_second address the row (x, y) they are given and no other (the metadata indices of keys and data items are rows of such maps)")
+    fns = {}
+    for ty in ("TripleRelationMap", "RelationMap"):
+        for f in syn.fns:
+            if f.file == "src/store.rs" and (f.self_ty or "").startswith(ty + "<") and f.trait is None and f.body is not None:
+                fns[(ty, f.name)] = f
+    for need in (("TripleRelationMap", "insert"), ("TripleRelationMap", "get"), ("TripleRelationMap", "remove"), ("TripleRelationMap", "remove_second"), ("RelationMap", "insert"), ("RelationMap", "get"), ("RelationMap", "remove"), ("RelationMap", "remove_all")):
+        if need not in fns:
+            ctx.anchor_missing(r, "%s::%s" % need)
+            return
+        ctx.functions_analysed.add(fns[need].qual)
+    hooks = {}
+    hooks["as_usize"] = lambda ev, recv, args, node, env: recv if isinstance(recv, int) else NotImplemented
+    hooks["last"] = lambda ev, recv, args, node, env: (some(recv[-1]) if recv else None) if isinstance(recv, list) else NotImplemented
+    hooks["is_empty"] = lambda ev, recv, args, node, env: (len(recv) == 0) if isinstance(recv, list) else NotImplemented
+    hooks["clear"] = lambda ev, recv, args, node, env: (recv.clear() or ()) if isinstance(recv, list) else NotImplemented
+    hooks["push"] = lambda ev, recv, args, node, env: (recv.append(args[0]) or ()) if isinstance(recv, list) else NotImplemented
+
+    def resize_with(ev, recv, args, node, env):
+        if isinstance(recv, TList):
+            while len(recv) < args[0]:
+                recv.append(recv.mk())
+            return ()
+        return NotImplemented
+    hooks["resize_with"] = resize_with
+
+    def get_(ev, recv, args, node, env):
+        if isinstance(recv, list) and len(args) == 1 and isinstance(args[0], int):
+            return some(recv[args[0]]) if 0 <= args[0] < len(recv) else None
+        return NotImplemented
+    hooks["get"] = get_
+    hooks["get_mut"] = get_
+
+    def position(ev, recv, args, node, env):
+        from props.c10 import closure_call
+        if isinstance(recv, list) and args and isinstance(args[0], tuple) and args[0][0] == "closure":
+            for i, x in enumerate(recv):
+                if closure_call(ev, args[0], [x], env):
+                    return some(i)
+            return None
+        return NotImplemented
+    hooks["position"] = position
+    hooks["iter"] = lambda ev, recv, args, node, env: recv if isinstance(recv, list) else NotImplemented
+
+    def h_remove(ev, recv, args, node, env):
+        if isinstance(recv, list) and len(args) == 1 and isinstance(args[0], int):
+            if not (0 <= args[0] < len(recv)):
+                raise Panic("remove-out-of-bounds", node.get("l"))
+            return recv.pop(args[0])
+        return NotImplemented
+    hooks["remove"] = h_remove
+
+    def h_insert(ev, recv, args, node, env):
+        if isinstance(recv, list) and len(args) == 2 and isinstance(args[0], int):
+            recv.insert(args[0], args[1])
+            return ()
+        return NotImplemented
+    hooks["insert"] = h_insert
+
+    def bsearch(ev, recv, args, node, env):
+        if not isinstance(recv, list):
+            return NotImplemented
+        from formula import ok, err
+        lo, hi = 0, len(recv)
+        while lo < hi:
+            mid = (lo + hi) // 2
+            if recv[mid] == args[0]:
+                return ok(mid)
+            if recv[mid] < args[0]:
+                lo = mid + 1
+            else:
+                hi = mid
+        return err(lo)
+    hooks["binary_search"] = bsearch
+
+    def map_or(ev, recv, args, node, env):
+        from props.c10 import closure_call
+        if recv is None:
+            return args[0]
+        if is_some(recv) and isinstance(args[1], tuple) and args[1][0] == "closure":
+            return closure_call(ev, args[1], [recv[1]], env)
+        return NotImplemented
+    hooks["map_or"] = map_or
+
+    def h_filter(ev, recv, args, node, env):
+        from props.c10 import closure_call
+        if (recv is None or is_some(recv)) and args and isinstance(args[0], tuple) and args[0][0] == "closure":
+            if recv is None:
+                return None
+            return recv if closure_call(ev, args[0], [recv[1]], env) else None
+        return NotImplemented
+    hooks["filter"] = h_filter
+
+    def dispatch(ev, recv, args, node, env):
+        if isinstance(recv, StructVal) and (recv.tyname, node["method"]) in fns:
+            f = fns[(recv.tyname, node["method"])]
+            params = [p_["pat"].get("name") for p_ in f.sig["inputs"]]
+            if len(params) != len(args):
+                return NotImplemented
+            return Evaluator(hooks=hooks).run_body(f.body, dict([("self", recv)] + list(zip(params, args))))
+        return NotImplemented
+    hooks["*"] = dispatch
+    for nm in ("insert", "get", "remove", "remove_all", "get_mut"):
+        prev = hooks.get(nm)
+
+        def mk(nm, prev):
+            def h(ev, recv, args, node, env):
+                if isinstance(recv, StructVal):
+                    return dispatch(ev, recv, args, node, env)
+                return prev(ev, recv, args, node, env) if prev else NotImplemented
+            return h
+        hooks[nm] = mk(nm, prev)
+
+    def new_map():
+        return StructVal("TripleRelationMap", {"data": TList(lambda: StructVal("RelationMap", {"data": TList(list)}))})
+
+    def call(m, name, *args):
+        f = fns[("TripleRelationMap", name)]
+        params = [p_["pat"].get("name") for p_ in f.sig["inputs"]]
+        return Evaluator(hooks=hooks).run_body(f.body, dict([("self", m)] + list(zip(params, args))))
+
+    def row(m, x, y):
+        g = call(m, "get", x, y)
+        return list(g[1]) if is_some(g) else None
+    n = 0
+    try:
+        m = new_map()
+        for x, y, z in ((1, 2, 5), (2, 1, 6), (1, 1, 7), (1, 2, 8)):
+            call(m, "insert", x, y, z)
+        state = {(1, 2): row(m, 1, 2), (2, 1): row(m, 2, 1), (1, 1): row(m, 1, 1), (2, 2): row(m, 2, 2)}
+        n += 1
+        r.hit("insert/get", sample={"inserted": [(1, 2, 5), (2, 1, 6), (1, 1, 7), (1, 2, 8)], "rows": {str(k): v for k, v in state.items()}})
+        if state != {(1, 2): [5, 8], (2, 1): [6], (1, 1): [7], (2, 2): None}:
+            ctx.report(r, "insert-get", "after inserting (1,2,5) (2,1,6) (1,1,7) (1,2,8) the rows read back as %s" % {str(k): v for k, v in state.items()}, fns[("TripleRelationMap", "insert")].file, fns[("TripleRelationMap", "insert")].line)
+        call(m, "remove", 1, 2, 5)
+        n += 1
+        r.hit("remove")
+        if (row(m, 1, 2), row(m, 2, 1), row(m, 1, 1)) != ([8], [6], [7]):
+            ctx.report(r, "remove", "remove(1,2,5) leaves the rows (1,2)=%s (2,1)=%s (1,1)=%s; expected [8] [6] [7]" % (row(m, 1, 2), row(m, 2, 1), row(m, 1, 1)), fns[("TripleRelationMap", "remove")].file, fns[("TripleRelationMap", "remove")].line)
+        call(m, "remove_second", 1, 2)
+        n += 1
+        got = (row(m, 1, 2), row(m, 2, 1), row(m, 1, 1), row(m, 2, 2))
+        r.hit("remove_second", sample={"after_remove_second(1,2)": [str(x) for x in got]})
+        if got != (None, [6], [7], None):
+            ctx.report(r, "remove_second", "remove_second(1, 2) leaves (1,2)=%s (2,1)=%s (1,1)=%s (2,2)=%s; expected the row (1,2) gone and the others untouched: the metadata index row of another key / data item is wiped (or the intended one survives), so a later removal does not cascade to the annotations on it" % got, fns[("TripleRelationMap", "remove_second")].file, fns[("TripleRelationMap", "remove_second")].line)
+    except (Unknown, Panic) as e:
+        ctx.report(r, "unevaluated", "TripleRelationMap could not be evaluated (%s): that each operation addresses the row it names is not established" % e, fns[("TripleRelationMap", "insert")].file, fns[("TripleRelationMap", "insert")].line)
+    ctx.floor(r, n, 3, "TripleRelationMap operations evaluated")
 
 
 def SInt_(v):
